@@ -49,6 +49,7 @@ def model(decls, stmt, where):
 
 
 def run(rep, tier, seed):
+    rep.level = "fault_enumeration"
     rng = random.Random(seed * 1000003 + 12)
     quick = tier == "quick"
     pairs = []      # (source, form, const model, mutable model)
